@@ -163,6 +163,7 @@ Proof. repeat split; vm_compute; reflexivity. Qed.
 Lemma source_literals_as_modelled :
   assoc_bytes (bs "newCredentials#0:HasSuffix") string_tests = Some (bs "-sess") /\
   assoc_bytes (bs "parseChallenge#0:HasPrefix") string_tests = Some (bs "Digest ") /\
+  assoc_bytes (bs "createDigestAuth#0:HasPrefix") string_tests = Some (bs "Digest ") /\
   assoc_bytes (bs "parseChallenge#1:strings.ToUpper(unquoteParam(r[1]))!=") string_tests = Some (bs "UTF-8") /\
   assoc_bytes (bs "authorize#0:c.userhash==") string_tests = Some (bs "true") /\
   assoc_bytes (bs "authorize#1:c.algorithm!=") string_tests = Some [] /\
@@ -464,6 +465,43 @@ Theorem non_digest_is_error split input :
   has_prefix (bs "Digest ") (trim is_chal_ws input) = false ->
   parse_challenge_with split input = inr EBadChallenge.
 Proof. intros Hp. unfold parse_challenge_with. now rewrite Hp. Qed.
+
+(* ---------- several WWW-Authenticate lines ---------- *)
+
+(* the Digest challenge is found behind any number of lines of other schemes *)
+Theorem select_digest_line pre c post :
+  forallb (fun l => negb (is_digest_line l)) pre = true -> is_digest_line c = true ->
+  select_challenge (pre ++ c :: post) = c.
+Proof.
+  intros Hpre Hc. unfold select_challenge.
+  assert (F : find is_digest_line (pre ++ c :: post) = Some c).
+  { induction pre as [|x r IH]; cbn [app find].
+    - now rewrite Hc.
+    - cbn [forallb] in Hpre. apply andb_prop in Hpre as [Hx Hr]. apply negb_true_iff in Hx.
+      rewrite Hx. auto. }
+  now rewrite F.
+Qed.
+
+(* no Digest line at all: the first line is looked at and refused *)
+Theorem select_no_digest_line lines :
+  forallb (fun l => negb (is_digest_line l)) lines = true ->
+  select_challenge lines = hd [] lines /\
+  (lines <> [] -> parse_challenge (select_challenge lines) = inr EBadChallenge).
+Proof.
+  intros H. assert (F : find is_digest_line lines = None).
+  { induction lines as [|x r IH]; [reflexivity|]. cbn [forallb find] in *.
+    apply andb_prop in H as [Hx Hr]. apply negb_true_iff in Hx. rewrite Hx. auto. }
+  unfold select_challenge. rewrite F. split; [reflexivity|].
+  destruct lines as [|x r]; [congruence|]. intros _. cbn [hd forallb] in *.
+  apply andb_prop in H as [Hx _]. apply negb_true_iff in Hx.
+  apply non_digest_is_error. exact Hx.
+Qed.
+
+Example select_pinned_refuted :
+  let lines := [bs "Basic realm=""fallback"""; bs "Digest realm=""r"", nonce=""n"", qop=""auth"""] in
+  parse_challenge (select_challenge_pinned lines) = inr EBadChallenge /\
+  exists c, parse_challenge (select_challenge lines) = inl c /\ supported c = true.
+Proof. split; [vm_compute; reflexivity|]. eexists. split; vm_compute; reflexivity. Qed.
 
 (* ---------- the pinned splitter / qop rule: witnesses of what was repaired ---------- *)
 
